@@ -1113,7 +1113,7 @@ func runCollector(c ColCase, r *runlog.R) error {
 
 var subCol = runlog.Register(&runlog.Sub[ColCase]{
 	Name: "collector",
-	Rule: "cfgutil.NewCollector(initial or nil, opts...) followed by 1-6 Add(cfg, err) calls: cfg a random tree over keys {a,b,c,d} (or nil), err nil or a distinct error, both, or neither; 1/6 of the config steps after the first give the config OBJECT of an earlier step once more (classes again:*). Oracle: Config() is the construction config (or a fresh one) and keeps its identity; before the first error the data equals merging the configs in order with the construction options; Add returns the step's error, Error()/Get() keep the first error; Add(nil, err) and Add(nil, nil) leave the stored config exactly as it was (snapshot hook, unevaluated), Add(cfg, err) does not merge cfg, and from the first error on (a given error or a failing merge) the stored config stays what it was right after that call, whatever is added later (configs without error: class `after failure: a config without error is added`); GetOptions() has the length and the behaviour (fixed build/merge/unpack probe) of the construction options. Non-trivial: >=2 configs (counting the initial one) meet under a non-default policy, or an error is followed by further calls. Distinct: hash of the case.",
+	Rule: "cfgutil.NewCollector(initial or nil, opts...) followed by 1-7 steps, mostly Add(cfg, err) calls: cfg a random tree over keys {a,b,c,d} (or nil), err nil or a distinct error, both, or neither; 1/4 of the config steps after the first give the config OBJECT of an earlier step once more (a long-lived config that a loader keeps; classes again:*), 1/8 are no Add call but the OWNER of an earlier config object changing its own config (sets a top-level name; class owner:*). Oracle (the fold always re-merges the ORIGINAL data of a config object - its tree plus the owner's changes, built anew -, never the object the collector has seen): after EVERY step every config object handed to Add so far still has exactly the stored structure it had when handed in (snapshot hook: the configs handed in are inputs only), and an owner changing its config afterwards leaves the collector's stored config exactly as it was (collected settings are copies); Config() is the construction config (or a fresh one) and keeps its identity; before the first error the data equals merging the configs in order with the construction options; Add returns the step's error, Error()/Get() keep the first error; Add(nil, err) and Add(nil, nil) leave the stored config exactly as it was (snapshot hook, unevaluated), Add(cfg, err) does not merge cfg, and from the first error on (a given error or a failing merge) the stored config stays what it was right after that call, whatever is added later (configs without error: class `after failure: a config without error is added`); GetOptions() has the length and the behaviour (fixed build/merge/unpack probe) of the construction options. Non-trivial: >=2 configs (counting the initial one) meet under a non-default policy, or an error is followed by further calls. Distinct: hash of the case.",
 	Gen:  genCollector,
 	Run:  runCollector,
 })
@@ -1340,11 +1340,11 @@ func runFiles(c FilesCase, r *runlog.R) error {
 		key := fmt.Sprintf("%d|%s", entry, path)
 		text, ok := firstText[key]
 		if !ok {
-			b, err := os.ReadFile(path)
-			if err != nil {
-				return realLoader(c.Exts[entry].Loader)(path, opts...) // fails the same way
+			// first time: the file itself (error texts name the path)
+			if b, err := os.ReadFile(path); err == nil {
+				firstText[key] = b
 			}
-			firstText[key], text = b, b
+			return realLoader(c.Exts[entry].Loader)(path, opts...)
 		}
 		private := filepath.Join(dir, "oracle-private-copy")
 		if err := os.WriteFile(private, text, 0o644); err != nil {
@@ -1800,7 +1800,7 @@ func runFilesFlagSet(c FilesCase, r *runlog.R, dir string, opts []ucfg.Option, i
 
 var subFiles = runlog.Register(&runlog.Sub[FilesCase]{
 	Name: "flag-files",
-	Rule: "1-5 file arguments for one NewFlagFiles flag driven through Set (4/5), or for a file flag registered in a standard library FlagSet and parsed as -c path -c path ... (1/5: ConfigFilesVar with the table, or the constructor that has the table built in: ConfigFilesExtsVar/ConfigYAMLFilesVar/ConfigJSONFilesVar); files (JSON, block YAML, top-level lists, documents without data such as null {} [] ~ or a comment, truncated or malformed text, empty, missing) are written under the run's work directory; names combine bases with inner dots and the extensions .json .yaml .yml .txt .JSON .conf .jsonx or none; 40% of the arguments after the first name the file of an earlier argument AGAIN (any earlier one, so A,A and A,B,A and longer patterns; 1/4 of these with the file rewritten in between), 10% of the new files copy the content of an earlier file; 3/8 of all arguments spell their path in another way that names the same file (dir/./name, dir//name, dir/sub/../name, relative to the working directory, through a symbolic link, a hard link, a symlinked directory); extension table one of 7 (the ConfigFilesExts table, yaml/json fallback only, extension plus fallback, single entry, empty, custom) built from recording wrappers around json/yaml.NewConfigWithFile; options as in flag-kv. Oracle: for EVERY argument, also one given before, the loader registered for filepath.Ext(path), else the \"\" entry, else an error, is the one called, with the path as given and with options that have the length and behaviour of the flag's; the data equals merging loader(path, opts...) (read at the time of the argument) in order with Merge(.., opts...) up to the first failing file; Error() reports that file's error and keeps it; a file without loader or one that cannot be loaded leaves the stored config exactly as it was (snapshot hook, unevaluated), and after the first failing file the stored config stays what it was right after it, whatever files follow (classes `after failure:*`: files that load on their own, further failing files); String() is the JSON of the data. Through a FlagSet the same is asserted once after Parse (loader calls as an ordered subsequence; Parse may or may not report a postponed file error; Parse goes on after a failing file, so the config must equal the merge of the files BEFORE the first failing one - not asserted only when the failure is a failing merge). Classes again:* count files named again, in a spelling used before or a new one, and how often merging the file again changes the data (which is when reading a file only once would be visible). Non-trivial: >=2 configs (counting the initial one) meet under a non-default policy, or a failing file is followed by further files (also on a FlagSet command line). Distinct: hash of the case.",
+	Rule: "1-5 file arguments for one NewFlagFiles flag driven through Set (4/5), or for a file flag registered in a standard library FlagSet and parsed as -c path -c path ... (1/5: ConfigFilesVar with the table, or the constructor that has the table built in: ConfigFilesExtsVar/ConfigYAMLFilesVar/ConfigJSONFilesVar); files (JSON, block YAML, top-level lists, documents without data such as null {} [] ~ or a comment, truncated or malformed text, empty, missing) are written under the run's work directory; names combine bases with inner dots and the extensions .json .yaml .yml .txt .JSON .conf .jsonx or none; 40% of the arguments after the first name the file of an earlier argument AGAIN (any earlier one, so A,A and A,B,A and longer patterns; 1/4 of these with the file rewritten in between), 10% of the new files copy the content of an earlier file; 3/8 of all arguments spell their path in another way that names the same file (dir/./name, dir//name, dir/sub/../name, relative to the working directory, through a symbolic link, a hard link, a symlinked directory); extension table one of 7 (the ConfigFilesExts table, yaml/json fallback only, extension plus fallback, single entry, empty, custom) built from recording wrappers around json/yaml.NewConfigWithFile; in 1/3 of the cases the wrappers are loaders that KEEP what they hand out (the first *Config loaded for a path as spelled is returned again, the same object, whenever that path is given again; such a loader does not see a rewritten file; classes keep:*); options as in flag-kv. Oracle (for a keeping loader the fold re-merges the ORIGINAL data of a repeated path, read anew from a private copy of the text first loaded): after EVERY argument (through a FlagSet: after Parse) every config object a loader handed to the flag still has exactly the stored structure it had when handed out (snapshot hook: the loaded configs are inputs only); for EVERY argument, also one given before, the loader registered for filepath.Ext(path), else the \"\" entry, else an error, is the one called, with the path as given and with options that have the length and behaviour of the flag's; the data equals merging loader(path, opts...) (read at the time of the argument) in order with Merge(.., opts...) up to the first failing file; Error() reports that file's error and keeps it; a file without loader or one that cannot be loaded leaves the stored config exactly as it was (snapshot hook, unevaluated), and after the first failing file the stored config stays what it was right after it, whatever files follow (classes `after failure:*`: files that load on their own, further failing files); String() is the JSON of the data. Through a FlagSet the same is asserted once after Parse (loader calls as an ordered subsequence; Parse may or may not report a postponed file error; Parse goes on after a failing file, so the config must equal the merge of the files BEFORE the first failing one - not asserted only when the failure is a failing merge). Classes again:* count files named again, in a spelling used before or a new one, and how often merging the file again changes the data (which is when reading a file only once would be visible). Non-trivial: >=2 configs (counting the initial one) meet under a non-default policy, or a failing file is followed by further files (also on a FlagSet command line). Distinct: hash of the case.",
 	Gen:  genFiles,
 	Run:  runFiles,
 })
